@@ -42,7 +42,8 @@ CasesFor(k) ==
     \* of the other sign, or none at all when no axis needs it
     [] k = "axis" -> {[op |-> "axis", x0 |-> x0, rx |-> rx, nx |-> nx, y0 |-> 3, ry |-> ry, ny |-> ny, fb |-> fb] :
                         x0 \in {0, -5, 7}, rx \in {2, -2, 1, 5}, nx \in {1, 2, 5}, ry \in {-2, 3}, ny \in {1, 3}, fb \in {"true", "wrong", "none"}}
-    [] k = "bin1d" -> {[op |-> "bin1d", sz |-> sz, o |-> o, dir |-> d, idx |-> i] : sz \in {4, 6, 1}, o \in {0, -6, 2}, d \in {1, -1}, i \in {-2, 0, 3}}
+    \* sz in quarter units; 196 / 300 / 412 = 49 / 75 / 103 units: sizes whose reciprocal is not exact in binary (x / sz and x * (1 / sz) differ on bin edges)
+    [] k = "bin1d" -> {[op |-> "bin1d", sz |-> sz, o |-> o, dir |-> d, idx |-> i] : sz \in {4, 6, 1, 196, 300, 412}, o \in {0, -6, 2}, d \in {1, -1}, i \in {-2, 0, 3}}
     [] k = "poly" -> {[op |-> "poly", kind |-> kd, nn |-> nn, T |-> T, mag |-> (((T[1] + 2 * T[2] + 3 * T[4] + T[5] + 6) % 3) * 13) - 14] : kd \in {"affine", "bilinear", "biquad"}, nn \in {3, 4, 6, 8, 9, 12},
                         \* input transforms: every invertible integer matrix with entries in -1..2 (scales, mirrors, rotations, shears in the x row only,
                         \* in the y row only, in both), two translations
